@@ -43,6 +43,8 @@ add("C09", EX, "Bounded-exhaustive: every optimisation (cull, inline, inline_fun
     "bounded exhaustive enumeration of small graphs x request subsets x parameter grid with differential evaluation")
 add("C11", EX, "All pairs over a constructed universe of ~20k task nodes (every argument tuple, hence every permutation, nesting depth 2): pairs are decided by grouping on (type, token); every equal pair is evaluated on every assignment of its references.", "5/C11", "Trusted: GraphNode.__eq__ is token-based (read from the code), so token groups contain every equal pair.",
     "exhaustive all-pairs comparison over a bounded constructed universe (group by token, evaluate each equal pair)")
+add("C12", EX, "All pairs over a constructed universe (~7.4k values: builtins, nested containers, every 0/1 array of 7 small shapes x 12 dtypes x 7 memory layouts, object arrays, pandas objects incl. every block placement, dataclasses, partials, lambdas), decided by grouping on the token against an independent structural equality; determinism under repeat, deepcopy, pickle, reconstruction and two other hash seeds in child interpreters.", "5/C12", "Trusted: the structural oracle canon(); the universe is finite and stated in the evidence rule.",
+    "exhaustive all-pairs injectivity check over a bounded constructed universe (group by token) + determinism replays across interpreters")
 
 
 def build():
